@@ -74,7 +74,7 @@ func wzDefPredeclaredTypes() {
 	// Note: don't use &emptyInterface for the type of any. Using a unique
 	// pointer allows us to detect any and format it as "any" rather than
 	// interface{}, which clarifies user-facing error messages significantly.
-	wzDef(NewTypeName(token.NoPos, nil, token.K_皮囊, &Interface{}))
+	wzDef(NewTypeName(token.NoPos, nil, token.K_皮囊, (&Interface{}).Complete()))
 
 	// Error has a nil package in its qualified name since it is in no package
 	res := NewVar(token.NoPos, nil, "", Typ[String])
